@@ -114,9 +114,9 @@ def main(ctx):
 
     # T ---------------------------------------------------------------------------------------
     trace = ctx.path("trace.ndjson")
-    n = 700 if thorough else 84
+    n = 2100 if thorough else 84
     ctx.harness(["record", "X02", "--out", trace, "--n", n, "--opt", "bindir=" + bindir,
-                 "--opt", "maxrecs=%d" % (2500 if thorough else 1200)], timeout=1800)
+                 "--opt", "maxrecs=%d" % (3000 if thorough else 1200)], timeout=1800)
     events, verdicts = validate(ctx, trace, heap="8g", timeout=2400)
     kinds = {}
     for e in events:
